@@ -342,7 +342,7 @@ func c08Edges(r *Run) {
 		{"trillian/ctfe.getSTHConsistency", "params-bad", nilAtom("trillian/ctfe.parseGetSTHConsistencyRange(p3)#2"), "non", "400"},
 		{"trillian/ctfe.getSTHConsistency", "backend-error", nilAtom("iface(trillian.TrillianLogClient).GetConsistencyProof(*)#1"), "non", "(*trillian/ctfe.logInfo).toHTTPStatus(p1, iface(trillian.TrillianLogClient).GetConsistencyProof(*)#1)"},
 		{"trillian/ctfe.getSTHConsistency", "root-garbled", nilAtom(root), "non", "500"},
-		{"trillian/ctfe.getSTHConsistency", "tree-too-small", ordAtomR("new:types.LogRootV1#0.TreeSize", "trillian/ctfe.parseGetSTHConsistencyRange(p3)#1"), "<", "400"},
+		{"trillian/ctfe.getSTHConsistency", "tree-too-small", ordAtomR("ROOT.TreeSize", "trillian/ctfe.parseGetSTHConsistencyRange(p3)#1"), "<", "400"},
 		{"trillian/ctfe.getSTHConsistency", "proof-hash-size", boolAtom("trillian/ctfe.checkAuditPath(*)"), "F", "500"},
 		// get-proof-by-hash
 		{"trillian/ctfe.getProofByHash", "hash-missing", ordAtomR("len((*http.Request).FormValue(*))", "0"), "=", "400"},
@@ -351,14 +351,14 @@ func c08Edges(r *Run) {
 		{"trillian/ctfe.getProofByHash", "tree-size-below-1", ordAtomR("strconv.ParseInt(*)#0", "1"), "<", "400"},
 		{"trillian/ctfe.getProofByHash", "backend-error", nilAtom("iface(trillian.TrillianLogClient).GetInclusionProofByHash(*)#1"), "non", "(*trillian/ctfe.logInfo).toHTTPStatus(p1, iface(trillian.TrillianLogClient).GetInclusionProofByHash(*)#1)"},
 		{"trillian/ctfe.getProofByHash", "root-garbled", nilAtom(root), "non", "500"},
-		{"trillian/ctfe.getProofByHash", "tree-too-small", ordAtomR("new:types.LogRootV1#0.TreeSize", "strconv.ParseInt(*)#0"), "<", "404"},
+		{"trillian/ctfe.getProofByHash", "tree-too-small", ordAtomR("ROOT.TreeSize", "strconv.ParseInt(*)#0"), "<", "404"},
 		{"trillian/ctfe.getProofByHash", "no-proof", ordAtomR("len(*.Proof)", "0"), "=", "404"},
 		{"trillian/ctfe.getProofByHash", "proof-hash-size", boolAtom("trillian/ctfe.checkAuditPath(*)"), "F", "500"},
 		// get-entries
 		{"trillian/ctfe.getEntries", "params-bad", nilAtom("trillian/ctfe.parseGetEntriesRange(*)#2"), "non", "400"},
 		{"trillian/ctfe.getEntries", "backend-or-fix-error", nilAtom("trillian/ctfe.rpcGetLeavesByRange(*)#2"), "non", "trillian/ctfe.rpcGetLeavesByRange(*)#1"},
 		{"trillian/ctfe.getEntries", "root-garbled", nilAtom(root), "non", "500"},
-		{"trillian/ctfe.getEntries", "tree-too-small", ordAtomR("new:types.LogRootV1#0.TreeSize", "trillian/ctfe.parseGetEntriesRange(*)#0"), "<,=", "400"},
+		{"trillian/ctfe.getEntries", "tree-too-small", ordAtomR("ROOT.TreeSize", "trillian/ctfe.parseGetEntriesRange(*)#0"), "<,=", "400"},
 		{"trillian/ctfe.getEntries", "surplus-leaves", ordAtomR("len(*.Leaves)", "((1 + trillian/ctfe.parseGetEntriesRange(*)#1) - trillian/ctfe.parseGetEntriesRange(*)#0)"), ">", "500"},
 		{"trillian/ctfe.getEntries", "leaf-misindexed", ordAtomR("*.Leaves[*].LeafIndex", "(* + trillian/ctfe.parseGetEntriesRange(*)#0)"), "<,>", "500"},
 		{"trillian/ctfe.getEntries", "marshal-entries-failed", nilAtom("trillian/ctfe.marshalGetEntriesResponse(*)#1"), "non", "500"},
@@ -366,7 +366,7 @@ func c08Edges(r *Run) {
 		{"trillian/ctfe.getEntryAndProof", "params-bad", nilAtom("trillian/ctfe.parseGetEntryAndProofParams(p3)#2"), "non", "400"},
 		{"trillian/ctfe.getEntryAndProof", "backend-or-fix-error", nilAtom("trillian/ctfe.rpcGetEntryAndProof(*)#2"), "non", "trillian/ctfe.rpcGetEntryAndProof(*)#1"},
 		{"trillian/ctfe.getEntryAndProof", "root-garbled", nilAtom(root), "non", "500"},
-		{"trillian/ctfe.getEntryAndProof", "tree-too-small", ordAtomR("new:types.LogRootV1#0.TreeSize", "trillian/ctfe.parseGetEntryAndProofParams(p3)#1"), "<", "400"},
+		{"trillian/ctfe.getEntryAndProof", "tree-too-small", ordAtomR("ROOT.TreeSize", "trillian/ctfe.parseGetEntryAndProofParams(p3)#1"), "<", "400"},
 		{"trillian/ctfe.getEntryAndProof", "leaf-absent", nilAtom("trillian/ctfe.rpcGetEntryAndProof(*)#0.Leaf"), "nil", "500"},
 		{"trillian/ctfe.getEntryAndProof", "leaf-empty", ordAtomR("len(*.Leaf.LeafValue)", "0"), "=", "500"},
 		{"trillian/ctfe.getEntryAndProof", "proof-absent", nilAtom("trillian/ctfe.rpcGetEntryAndProof(*)#0.Proof"), "nil", "500"},
@@ -383,6 +383,9 @@ func c08Edges(r *Run) {
 		fn := r.Fn(row.fn)
 		if fn == nil {
 			continue
+		}
+		if strings.HasPrefix(row.atom.OrdA, "ROOT.") {
+			row.atom.OrdA = decodedRoot(r, fn) + strings.TrimPrefix(row.atom.OrdA, "ROOT")
 		}
 		sp := EdgeSpec{Name: row.name, Atom: row.atom, Bad: row.bad, Want: wantStatus(row.status)}
 		// a failed request never records an SCT and parse failures never reach the backend
@@ -559,4 +562,15 @@ func c08StatusCarried(r *Run) {
 		}
 	}
 	r.Floor("functions relaying backend errors", n, 4)
+}
+
+// decodedRoot is the origin term of the log root the function decoded: the
+// receiver of its one (*types.LogRootV1).UnmarshalBinary call (the variable the
+// handlers compare tree sizes with, however it is copied around afterwards).
+func decodedRoot(r *Run, fn *ssa.Function) string {
+	cs := CallsTo(fn, "(*types.LogRootV1).UnmarshalBinary")
+	if len(cs) == 1 {
+		return selBase(r.D.D(CallArgs(cs[0])[0]))
+	}
+	return "new:types.LogRootV1#0"
 }
